@@ -403,3 +403,19 @@ def requests(draw, spec, op_kind=None, max_depth=3, use_variables=True, use_frag
     variables = {n: GS.to_json_var(v["value"]) for n, v in b.vars.items() if "value" in v}
     return {"text": text, "variables": variables, "operation_name": operation_name, "kind": kind,
             "features": sorted(b.features), "var_meta": {n: dict(v) for n, v in b.vars.items()}}
+
+
+def revalued(draw, spec, req):
+    """The same request text with another assignment of its variables (every variable that had a value gets a fresh value of
+    its declared type; the omitted ones stay omitted): what a client sending one persisted document over and over does."""
+    variables = {}
+    for n, v in req["var_meta"].items():
+        if "value" not in v:
+            continue
+        t = GS.parse_t(v["type"])
+        x = GS.gen_input_value(draw, spec, t, 1)
+        if x is None and t[0] == "nn":
+            x = GS.gen_nonnull(draw, spec, t, 1)
+        variables[n] = GS.to_json_var(x)
+    out = dict(req, variables=variables, features=sorted(set(req["features"]) | {"same-document-other-variables"}))
+    return out
